@@ -157,6 +157,7 @@ pub fn apply_op(op: &Op, top: bool) {
                     lib(|| Rc::from(b))
                 }
                 6 => lib(|| Rc::from(node)),
+                4 => lib(|| std::pin::Pin::into_inner(Rc::pin(node))),
                 7 => lib(|| {
                     let mut u = Rc::<Node>::new_uninit();
                     unsafe {
